@@ -52,6 +52,8 @@ func vhDurablyDone(im *kit.Image) bool {
 // vhCrashRecover: run forward to the end, crash after c durable writes (c is a solver variable), recover in a
 // second engine instance from the durable image, and check C09 / C10.
 func vhCrashRecover(orc int, fam int, mode int, second bool) {
+	// every action gets a retry budget of 0 or 1 (a budget left over at the crash must not cause a re-run)
+	vhRetries = api.Choose("retries", 2)
 	w1 := vhNewWorld(vhCfg(fam), mode, 0)
 	init := w1.vault.Snapshot()
 	w1.run(false)
@@ -164,6 +166,11 @@ func vhCheckRecovery(orc int, w1, w2 *vhWorld, img map[uuid.UUID]*kit.Image, uni
 			}
 		}
 	}
+	if orc&oC03 != 0 {
+		// the tolerance decides the block's outcome across a restart exactly as without one (checks are absent in these shapes)
+		w2.seqFailedN = map[*workflow.Block]int{}
+		w2.checkC03x(true)
+	}
 	if orc&oC10 != 0 {
 		w2.checkTerminalConsistent("C10" + sfx)
 		// deferred checks of entered, non-bypassed scopes have run
@@ -228,3 +235,6 @@ func VerifDbgCrash() {
 func VerifC0910PlanGroups()  { vhCrashRecover(oC09|oC10, famPlanGroupsSmall, kit.ModeOkFail, false) }
 func VerifC0910BlockGroups() { vhCrashRecover(oC09|oC10, famBlockGroupsSmall, kit.ModeOkFail, false) }
 func VerifC0910Conc()        { vhCrashRecover(oC09|oC10, famConc2, kit.ModePerAction, false) }
+
+func VerifC03CrashSeq()  { vhCrashRecover(oC03, famSeqSmall, kit.ModePerAction, false) }
+func VerifC03CrashConc() { vhCrashRecover(oC03, famConc2, kit.ModePerAction, false) }
